@@ -206,10 +206,18 @@ MainTake == /\ mres = "none" /\ bucket[mi] # <<>>
             /\ out' = Append(out, Head(bucket[mi])) /\ bucket' = [bucket EXCEPT ![mi] = Tail(@)]
             /\ UNCHANGED <<WU, cancelled, pos, pending, closed, active, eof, err, sync, nxt, pc, chunk, prev, zeroes, insync,
                            nulltodo, mi, mres>>
+\* The aggregator goes on with the worker the drained one stopped in favour of: its `next`, which a worker moves past a
+\* follower that has ended and whose bucket it has emptied (SkipTest).  As found, the loop took the workers in slice order
+\* (mi + 1): when worker i had emptied the bucket of an i+1 that had itself reached the end of the file and then fell in
+\* step with i+2, the loop stopped at i+1 ("eof") and the chunks left in i+2's bucket were lost - an index shorter than the
+\* file, reported as success (finding F30; it needs a boundary that i+1 ignores because it lies closer than the minimum
+\* size to its previous cut, which the exhaustive configurations with a minimum of 1 cannot produce; a recorded trace of
+\* the real code found it).
+AggNext(i) == nxt[i]
 MainDrained == /\ mres = "none" /\ bucket[mi] = <<>> /\ closed[mi]
                /\ IF err[mi] THEN mres' = "err" /\ UNCHANGED mi
-                  ELSE IF eof[mi] \/ mi + 1 = NW THEN mres' = "ok" /\ UNCHANGED mi
-                  ELSE mi' = mi + 1 /\ UNCHANGED mres
+                  ELSE IF eof[mi] \/ AggNext(mi) = NIL THEN mres' = "ok" /\ UNCHANGED mi
+                  ELSE mi' = AggNext(mi) /\ UNCHANGED mres
                /\ UNCHANGED <<WU, cancelled, pos, bucket, pending, closed, active, eof, err, sync, nxt, pc, chunk, prev,
                               zeroes, insync, nulltodo, out>>
 Cancel == /\ ~cancelled /\ mres = "none" /\ cancelled' = TRUE
